@@ -105,6 +105,13 @@ func vpnSetup(w *simWorld) error {
 		st.defs[d.Name] = d
 	}
 	w.fam = st
+	if len(w.sc.Policies) > 0 {
+		// a global import policy that modifies every route: what sits in the Loc-RIB is then a
+		// modified copy of the Adj-RIB-In route, and a soft reset in replaces it by another copy
+		if err := w.assignPolicy("import", w.sc.Policies[0].Name); err != nil {
+			return err
+		}
+	}
 	return nil
 }
 
@@ -124,6 +131,10 @@ func genVPN(seed uint64, tier, mode string) *Script {
 		return c
 	}
 	sc.Peers = []PeerCfg{pe(0), pe(1)}
+	softin := g.p(50)
+	if softin {
+		sc.Policies = []PolicyCfg{{Name: "mark", Action: "accept", AddComm: "65000:999"}}
+	}
 	sc.Peers = append(sc.Peers, PeerCfg{Idx: 2, Addr: peerAddr(2), RouterID: peerRID(2), Kind: "ebgp", AS: 65101, Families: []string{"ipv4-unicast"}, Vrf: "red", Late: true})
 	if g.p(60) {
 		sc.Peers = append(sc.Peers, PeerCfg{Idx: 3, Addr: peerAddr(3), RouterID: peerRID(3), Kind: "ebgp", AS: 65102, Families: []string{"ipv4-unicast"}, Vrf: "blue", Late: true})
@@ -209,6 +220,9 @@ func genVPN(seed uint64, tier, mode string) *Script {
 			p := g.n(len(sc.Peers))
 			add(Op{Kind: "flap", Peer: p})
 			add(Op{Kind: "up", Peer: p})
+		}
+		if softin && g.p(12) {
+			add(Op{Kind: "softin", Peer: g.n(len(sc.Peers)), Arg: pick(g, []string{"one", "one", "all"})})
 		}
 		if g.p(25) {
 			add(Op{Kind: "probe"})
@@ -308,6 +322,15 @@ func vpnOp(w *simWorld, actor int, op *Op) {
 			// RFC 4684: End-of-RIB for the RT membership family after the initial exchange
 			p.write(buildEOR(famRTC))
 		}
+		vpnSettle()
+	case "softin":
+		addr := w.peers[op.Peer].cfg.Addr
+		if op.Arg == "all" {
+			addr = "all"
+		}
+		err := w.s.ResetPeer(context.Background(), &api.ResetPeerRequest{Address: addr, Soft: true, Direction: api.ResetPeerRequest_DIRECTION_IN})
+		w.logf("soft reset in %s: %v", addr, err)
+		w.probe("soft_reset_in")
 		vpnSettle()
 	case "flap":
 		p := w.peers[op.Peer]
